@@ -45,6 +45,10 @@ def main():
         res["demo_without"] = rc0
         rc, out = sh("git -C %s apply %s" % (wt, os.path.join(a.src, "patch.diff")))
         if rc != 0:
+            # the repository moved on since the change was written: try a three-way application
+            rc, out = sh("git -C %s apply --3way %s && git -C %s reset -q" % (wt, os.path.join(a.src, "patch.diff"), wt))
+            res["applied"] = "3way"
+        if rc != 0:
             res["error"] = "patch does not apply: " + out[-400:]
             print(json.dumps(res, indent=1))
             return 2
